@@ -102,6 +102,14 @@ def value_type(doc):
             if root["signature"]["params"]:
                 raise Inhabit("function value with a polymorphic root")
             sig = root["signature"]["body"]
+        elif root["op"] == "TailLoop":
+            # inner_function_type of a TailLoop: just_inputs + rest -> [Sum(just_inputs, just_outputs), *rest]
+            sig = {"input": [*root["just_inputs"], *root["rest"]],
+                   "output": [_g([root["just_inputs"], root["just_outputs"]]), *root["rest"]], "runtime_reqs": root.get("extension_delta", [])}
+        elif root["op"] == "Case":
+            sig = root["signature"]
+        elif root["op"] == "DataflowBlock":
+            sig = {"input": root["inputs"], "output": [_g(root["sum_rows"]), *root["other_outputs"]], "runtime_reqs": root.get("extension_delta", [])}
         else:
             raise Inhabit(f"function value rooted at {root['op']}")
         # the type of the constant is the signature of the body (children 0/1 are its Input/Output)
